@@ -655,6 +655,19 @@ pub fn execute(scn: &RtScn, ctx: &mut Ctx) {
     }
     let expected: Vec<Geom> = written.iter().map(|g| g.normalised_for_read()).collect();
     read_routes(ctx, "C01", ty, &shp, shx.as_deref(), &expected, scn.rstack, &scn.rplan, &written);
+    // the bytes produced by the last explicit finalize, read while the writer is still alive (what
+    // the destinations hold when finalize returns, below any buffer): the shapes written until then
+    if let Some((mi, m)) = run.marks.iter().enumerate().rev().find(|(_, m)| m.call == "finalize" && m.res.is_ok() && m.snap.is_some()) {
+        let upto = run.marks[..mi].iter().filter(|m| m.call.starts_with("write(") && m.res.is_ok()).count();
+        if upto > 0 && upto <= written.len() {
+            if let Some((s_shp, s_shx)) = &m.snap {
+                let exp_then: Vec<Geom> = expected[..upto].to_vec();
+                let written_then: Vec<&Geom> = written[..upto].to_vec();
+                ctx.stats.reach("read-after-finalize-before-drop");
+                read_routes(ctx, "C01", ty, s_shp, if scn.w.with_shx { Some(&s_shx[..]) } else { None }, &exp_then, scn.rstack, &scn.rplan, &written_then);
+            }
+        }
+    }
     if dec.is_some() && !written.is_empty() {
         check_c06(ctx, ty, &shp, written.len(), scn.rstack, &scn.rplan);
     }
@@ -863,6 +876,16 @@ pub fn large_unit(unit: u64, ctx: &mut Ctx, ctl: &mut crate::scn::UnitCtl) {
             }
             let shapes = vec![grid_spec(18, 1, 3, 60), grid_spec(18, 1, 66_000, 11)];
             scns.push(mk(shapes, true, StackCfg::Buf(8192), StackCfg::Buf(8192), false));
+        }
+        4 => {
+            // one part beyond 2^17 and 2^18 points
+            scns.push(mk(vec![grid_spec(13, 1, 131_077, 11), grid_spec(13, 1, 3, 60)], true, StackCfg::Buf(8192), StackCfg::Buf(8192), false));
+            scns.push(mk(vec![grid_spec(3, 1, 2, 60), grid_spec(3, 2, 131_073, 11)], false, StackCfg::Buf(8192), StackCfg::Buf(8192), false));
+            scns.push(mk(vec![grid_spec(28, 1, 262_149, 11)], true, StackCfg::Buf(8192), StackCfg::Buf(8192), false));
+        }
+        5 => {
+            // thorough tier only: one part beyond 2^20 points (a 32 MiB record)
+            scns.push(mk(vec![grid_spec(15, 1, 1_048_581, 11), grid_spec(15, 1, 4, 60)], true, StackCfg::Buf(8192), StackCfg::Buf(8192), false));
         }
         _ => {
             // many points per part
